@@ -18,7 +18,7 @@ META = dict(
     bounds=dict(quick='kernel 1 vs kernel 2 from an arbitrary symbolic accumulator state on a symbolic batch of 3 traces x 2 samples (partitioned: 2 words, classes incl. the ignored marker; template: 1 word), '
                       'trace dtype in {uint8, int16, float32, float64} x precision {float32, float64}; every kernel-choice sequence reachable over 3 batches (symbolic clock); '
                       'iteration footprints of every prange loop (partitioned 1, template 1 and 2, MIA, t-test)',
-                thorough='4 traces, 4 batches'),
+                thorough='5 traces, 5 batches'),
     assumptions=['exact reals with rounding marks: an operation or cast carried out in a float type narrower than the requested precision is not assumed exact',
                  'thread-count independence is decided as independence of the prange iterations: no element written in one iteration is read or written in another (then any distribution over threads gives the same state)'],
     outside=['BLAS threading inside matrix products', 'real preemption inside compiled kernels'],
@@ -37,8 +37,8 @@ def jobs(tier, seed):
     js = []
     for fam in ('partitioned', 'template'):
         for (td, p) in GRID:
-            js.append(dict(name=f'{fam}-k1-vs-k2-{td}-{p}', kind='kernels', fam=fam, td=td, p=p, n=3 if tier == 'quick' else 4))
-        js.append(dict(name=f'{fam}-sequences', kind='sequences', fam=fam, batches=3 if tier == 'quick' else 4))
+            js.append(dict(name=f'{fam}-k1-vs-k2-{td}-{p}', kind='kernels', fam=fam, td=td, p=p, n=3 if tier == 'quick' else 5))
+        js.append(dict(name=f'{fam}-sequences', kind='sequences', fam=fam, batches=3 if tier == 'quick' else 5))
     js.append(dict(name='prange-footprints', kind='footprint'))
     return js
 
@@ -56,12 +56,12 @@ def job_kernels(job, res):
         x = sym_traces(td, (n, 2))
         if fam == 'partitioned':
             K = 3
-            idx = S.const(rnp.array([[0, 2], [-1, 1], [1, 1], [2, -1]][:n], dtype='int32'))
+            idx = S.const(rnp.array([[0, 2], [-1, 1], [1, 1], [2, -1], [1, 0]][:n], dtype='int32'))
             mk = lambda tag: (S.sym_real('s' + tag, (2, 2, K), p), S.sym_real('q' + tag, (2, 2, K), p), S.sym_real('c' + tag, (2, K), p))  # noqa: E731
             k1, k2 = P.PartitionedDistinguisherMixin._accumulate_core_1, P.PartitionedDistinguisherMixin._accumulate_core_2
         else:
             K = 2
-            idx = S.const(rnp.array([[1], [-1], [1], [0]][:n], dtype='int32'))
+            idx = S.const(rnp.array([[1], [-1], [1], [0], [0]][:n], dtype='int32'))
             mk = lambda tag: (S.sym_real('e' + tag, (K, 2), p), S.sym_real('f' + tag, (K, 2, 2), p), S.sym_real('c' + tag, (K,), p))  # noqa: E731
             k1, k2 = T._TemplateBuildDistinguisherMixin._accumulate_core_1, T._TemplateBuildDistinguisherMixin._accumulate_core_2
         names = ['sum', 'sum_square', 'counters'] if fam == 'partitioned' else ['_exi', '_exxi', '_counters']
@@ -97,12 +97,12 @@ def job_sequences(job, res):
         x = S.sym_real('x', (nb, 2), 'float64')
         if fam == 'partitioned':
             d = L.MODS['partitioned'].SNRDistinguisher(partitions=[0, 1, 2], precision='float64')
-            y = S.const(rnp.array([[0, 1], [7, 2], [1, 1], [2, 0]][:nb], dtype='uint8'))
+            y = S.const(rnp.array([[0, 1], [7, 2], [1, 1], [2, 0], [0, 2]][:nb], dtype='uint8'))
             attrs = ['sum', 'sum_square', 'counters']
         else:
             import harness.C16 as C16
             d = C16.make('TemplateBuild')
-            y = S.const(rnp.array([[0], [1], [7], [1]][:nb], dtype='uint8'))
+            y = S.const(rnp.array([[0], [1], [7], [1], [0]][:nb], dtype='uint8'))
             attrs = ['_exi', '_exxi', '_counters']
         for i in range(nb):
             d.update(x[i:i + 1], y[i:i + 1])
@@ -195,12 +195,12 @@ def replay(w):
         pt = np.dtype(p).type
         for X in tries:
             if fam == 'partitioned':
-                idx = np.array([[0, 2], [-1, 1], [1, 1], [2, -1]][:n], dtype='int32')
+                idx = np.array([[0, 2], [-1, 1], [1, 1], [2, -1], [1, 0]][:n], dtype='int32')
                 mk = lambda: (np.zeros((2, 2, 3), dtype=p), np.zeros((2, 2, 3), dtype=p), np.zeros((2, 3), dtype=p))  # noqa: E731
                 k1, k2 = D.partitioned.PartitionedDistinguisherMixin._accumulate_core_1, D.partitioned.PartitionedDistinguisherMixin._accumulate_core_2
                 names = ['sum', 'sum_square', 'counters']
             else:
-                idx = np.array([[1], [-1], [1], [0]][:n], dtype='int32')
+                idx = np.array([[1], [-1], [1], [0], [0]][:n], dtype='int32')
                 mk = lambda: (np.zeros((2, 2), dtype=p), np.zeros((2, 2, 2), dtype=p), np.zeros((2,), dtype=p))  # noqa: E731
                 k1, k2 = D.template._TemplateBuildDistinguisherMixin._accumulate_core_1, D.template._TemplateBuildDistinguisherMixin._accumulate_core_2
                 names = ['_exi', '_exxi', '_counters']
